@@ -1,4 +1,6 @@
 -- root of the proof library: one module per property (theorems only) + helper lemmas
+import Proofs.C10
+import Proofs.C11
 import Proofs.C12
 import Proofs.C13
 import Proofs.C14
